@@ -361,7 +361,7 @@ def models(chk: Check):
     with open(path, "w") as f:
         f.write("SPECIFICATION Spec\nCONSTANTS\n Fixed = TRUE\n"
                 f" MaxAtt = {3 if quick else 4}\n Horizon = {12 if quick else 20}\n SlowLat = 2\n MaxDelay = 4\n BrkThr = 3\n BrkSleep = 3\n"
-                f" ModelTaskBound = 3\n MaxRuns = 2\nINVARIANT NoContractViolation\nINVARIANT BoundedTasks\nINVARIANT AllClosed\nINVARIANT NoOrphan\n"
+                f" ModelTaskBound = 3\n MaxRuns = 2\nINVARIANT NoContractViolation\nINVARIANT BoundedTasks\nINVARIANT AllClosed\nINVARIANT NoOrphan\nINVARIANT AlwaysTrying\n"
                 "CHECK_DEADLOCK FALSE\n")
     chk.model("conn", "ConnMgrTasks", path, workers=16, coverage=quick, timeout=2400, xmx="12g")
     chk.sensitivity("conn", "ConnMgrTasks", "CONSTANTS\n Fixed = FALSE\n MaxAtt = 3\n Horizon = 12\n SlowLat = 2\n MaxDelay = 4\n BrkThr = 3\n BrkSleep = 3\n"
